@@ -848,3 +848,13 @@ func (c *Client) Resume() {
 		c.StartReader()
 	}
 }
+
+// WaitFor waits at most d (virtual time inside a bubble) for the response.
+func (x *Exchange) WaitFor(d time.Duration) (HTTPResult, bool) {
+	select {
+	case <-x.done:
+		return x.Res, true
+	case <-time.After(d):
+		return HTTPResult{}, false
+	}
+}
